@@ -424,7 +424,7 @@ func checkC17(c *Ctx) {
 			"state created once per route (when the handler is registered) is written by every request: "+strings.Join(bad, "; ")+" — requests to the same route see each other's fields and race", map[string]any{"captured": len(captured)})
 	}
 
-	c17RouteOwnHeaders(c)
+	c17RouteOwnHeaders(c, "R17f")
 	// ---- R17d registration
 	nReg := 0
 	regBad, regBadPos := "", ""
@@ -538,12 +538,12 @@ func holeFree(s string) string {
 }
 
 // c17RouteOwnHeaders: R17f — every route is registered with the header list of its own method.
-func c17RouteOwnHeaders(c *Ctx) {
+func c17RouteOwnHeaders(c *Ctx, rid string) {
 	r := c.R
-	r.Rule("R17f", "every route is registered with the header list of its own method (no value left over from the previous method)", 1)
+	r.Rule(rid, "every route is registered with the header list of its own method (no value left over from the previous method)", 1)
 	fn := c.P.Func(pkgHTTP, "Generator.generateService")
 	if fn == nil {
-		r.Unres("R17f", "generateService", "", "not found")
+		r.Unres(rid, "generateService", "", "not found")
 		return
 	}
 	c.W.Concrete = true
@@ -565,7 +565,7 @@ func c17RouteOwnHeaders(c *Ctx) {
 	run.StartArgs(fn, map[string]Val{"file": file, "service": svc})
 	pos := c.P.Pos(c.P.Decls[fn].Pos())
 	if len(run.Used) > 0 || run.Aborted != "" {
-		r.Undec("R17f", "registration of a concrete four-method service", pos, fmt.Sprintf("open decisions %v aborted %q", usedKeys(run), run.Aborted))
+		r.Undec(rid, "registration of a concrete four-method service", pos, fmt.Sprintf("open decisions %v aborted %q", usedKeys(run), run.Aborted))
 		return
 	}
 	cur := ""
@@ -587,6 +587,6 @@ func c17RouteOwnHeaders(c *Ctx) {
 			}
 		}
 	}
-	r.Check(len(bad) == 0 && nRoutes == 4, "R17f", "four-method service: each BindingMiddleware call follows the assignment of its own method's headers", pos,
+	r.Check(len(bad) == 0 && nRoutes == 4, rid, "four-method service: each BindingMiddleware call follows the assignment of its own method's headers", pos,
 		fmt.Sprintf("Register<Service>Server reuses one methodHeaders variable; for methods CreateItem(headers), GetItem(none), Audit(headers), Stats(none): %s (routes found: %d) — a route without method headers then enforces the required headers of the route registered before it", strings.Join(bad, "; "), nRoutes))
 }
